@@ -64,7 +64,7 @@ theorem body_back {t : TdQuoteBody} (hc : checkTDQuoteBody (some t) = .ok ()) (h
     tdQuoteBodyToAbiBytes (some t) = .ok (bodyBytes t) ∧ tdQuoteBodyToProto (bodyBytes t) = .ok t ∧
     (bodyBytes t).length = 584 := by
   refine ⟨by simp only [tdQuoteBodyToAbiBytes, bind_eq hc, pure, bodyBytes, fit_eq hrd], ?_⟩
-  obtain ⟨l1, l2, l3, l4, l5, l6, l7, l8, l9, l10, l11, l12⟩ := checkTDQuoteBody_ok_iff.mp hc
+  obtain ⟨l1, l2, l3, l4, l5, l6, l7, l8, l9, l10, l11, l12, _⟩ := checkTDQuoteBody_ok_iff.mp hc
   obtain ⟨tee, seam, sseam, sattr, tattr, xfam, mrtd, cfg, own, ownc, rtmrs, rd⟩ := t
   dsimp only at l1 l2 l3 l4 l5 l6 l7 l8 l9 l10 l11 l12 hrd
   obtain ⟨r0, r1, r2, r3, rfl⟩ := list_length_four l11
@@ -394,7 +394,9 @@ theorem fit_length (x : Bytes) (n : Nat) : (fit x n).length = n := by
 
 theorem bodyBytesFit_len {t : TdQuoteBody} (hc : checkTDQuoteBody (some t) = .ok ()) : (bodyBytesFit t).length = 584 := by
   have h1 : checkTDQuoteBody (some { t with reportData := fit t.reportData 64 }) = .ok () := by
-    rw [checkTDQuoteBody_ok_iff] at hc ⊢; exact hc
+    rw [checkTDQuoteBody_ok_iff] at hc ⊢
+    obtain ⟨a1, a2, a3, a4, a5, a6, a7, a8, a9, a10, a11, a12, _⟩ := hc
+    exact ⟨a1, a2, a3, a4, a5, a6, a7, a8, a9, a10, a11, a12, fit_length _ _⟩
   exact (body_back h1 (fit_length _ _)).2.2
 
 /-- the serialiser on a message that passes the check (no assumption on sizes or ranges) -/
